@@ -57,7 +57,7 @@ func (l *LineFilterPlanner) Process(ctx *shared.PlannerContext) (sql.ISelect, er
 			clause = sql.Eq(&sqlMatch{
 				col:     sql.NewRawObject("string"),
 				pattern: l.Val,
-			}, sql.NewIntVal(1))
+			}, sql.NewIntVal(0))
 		}
 		break
 	default:
